@@ -1,4 +1,5 @@
 import OrsoVerif.Lemmas.Persist
+import OrsoVerif.Lemmas.PersistAll
 import OrsoVerif.Lemmas.PersistPy
 /-!
 # C16 — Schemas and columns survive persistence round-trips unchanged
@@ -20,9 +21,16 @@ only thing assumed of the cast is C07's first clause, as a hypothesis where it i
 and, for JSON, `DefaultSurvivesJson` (casting the JSON rendering of the default gives it back — C07's
 "canonical rendering" clause) and `JsonNative` (the statistics are values JSON carries unchanged).
 
-`Persistable c`: the type is a base type or untyped, the element type a base type, an ARRAY names its
-element type, the disposition is a member.  Outside it the written form does not determine the column;
-the counterexamples at the end are the open findings C16-K01..K03.
+`Persistable c`: the type is a base type or untyped, the element type (if any) a base type or untyped, the
+disposition is a member.  Outside it the written form does not determine the column (a stored type that
+is the int 0).  The counterexamples at the end are the open findings C16-K01, K02; K03 (ARRAY without
+element type) and K04 (TIME default through JSON) are repaired and their theorems are positive now.
+
+Round 2: the model also interprets, statement by statement, `FlatColumn.from_dict`
+(`Gen.Persist.fromDictRules`), the fill statements of the type-literal block of `__init__`
+(`Gen.Persist.initFills`, with their guards), the guards of the DECIMAL defaults
+(`Gen.Persist.decimalFills`), the attribute `_converter` writes for an enum (`Gen.Persist.enumWrittenAs`)
+and which loader `RelationSchema.from_dict` / `from_json` call (`Gen.Persist.columnLoader`/`jsonLoader`).
 -/
 namespace C16
 open Persist
@@ -55,6 +63,15 @@ theorem toFlat_preserves (K : Caster V)
   ⟨_, toFlat_eq K fresh' c (init_establishes K hIdem fresh r c h),
     rfl, rfl, rfl, rfl, rfl, rfl, rfl, rfl, rfl, rfl, rfl, rfl, rfl⟩
 
+/-- **Flattening reads the column's current state.**  For a column in *any* state that satisfies what the
+constructor establishes (attributes assigned after construction included - statistics recorded later,
+aliases and nullability adjusted by a planner), `to_flatcolumn` returns exactly the current attributes,
+with disposition, expectations, length and origin reset: no earlier flat copy, no attribute of another
+moment can show through. -/
+theorem toFlat_of_constructed (K : Caster V) (fresh : String) (c : Col V) (hc : Constructed K c) :
+    toFlat K fresh c = .ok { c with disposition := none, expectations := [], length := none, origin := [] } :=
+  toFlat_eq K fresh c hc
+
 /-- **A schema written to a dictionary and read back is the same schema**: its name, aliases and
 primary key, and every column in every declared attribute (name, type with length, precision, scale and
 element type, nullability, default, aliases, description, disposition, identity, statistics; also
@@ -73,6 +90,44 @@ theorem fromDict_toDict_of_init (K : Caster V)
   fromDict_toDict_eq K fresh s fun c hc =>
     let ⟨⟨f, r, hi⟩, hp⟩ := h c hc
     ⟨init_establishes K hIdem f r c hi, hp⟩
+
+/-- **Full strength: every schema whose columns the constructor built.**  No vocabulary in the hypothesis: each
+column is the result of `FlatColumn(**kwargs)` for *some* keyword arguments - any type literal (`'decimal(10,2)'`,
+`'ARRAY<DATE>'`, `'VARIANT'`, the int 0, a member), any element type literal, any disposition literal, any default the
+cast accepts, any other attributes - the only condition being that an enum member passed in is a member of its enum
+(`WellTyped`, an identification, not a restriction).  In particular a column whose stored type is the int `0`
+(`'VARIANT'`/`'MISSING'`/`'0'`, C06's reading) is written as 0 and read back as 0, and an ARRAY column without an element
+type comes back without one (repair F09).  By C06's totality of `from_name`: a resolved name is a member or the int 0. -/
+theorem fromDict_toDict_constructed (K : Caster V)
+    (hIdem : ∀ m v w, K.parse m v = some w → K.truthy w = true → K.parse m w = some w)
+    (fresh : String) (s : Schema V)
+    (h : ∀ c ∈ s.columns, ∃ f r, WellTyped r ∧ init K f r = .ok c) :
+    fromDict K fresh (toDict s) = .ok s :=
+  fromDict_toDict_eq' K fresh s fun c hc =>
+    let ⟨f, r, hw, hi⟩ := h c hc
+    ⟨init_establishes K hIdem f r c hi, init_writable K f r c hi hw⟩
+
+/-- ... and it **behaves identically**: the restored schema gives `validate` (C05's model) the same outcome on every
+record and `DataFrame.description` (C06's type codes) the same entries - including the columns whose description
+raises (a stored type that is the int 0): it raises on both sides. -/
+theorem restored_behaves_same_constructed (K : Caster V)
+    (hIdem : ∀ m v w, K.parse m v = some w → K.truthy w = true → K.parse m w = some w)
+    (fresh : String) (s s' : Schema V)
+    (h : ∀ c ∈ s.columns, ∃ f r, WellTyped r ∧ init K f r = .ok c)
+    (hr : fromDict K fresh (toDict s) = .ok s') :
+    (∀ rec : Validate.Record, Validate.validate (vcols s') rec = Validate.validate (vcols s) rec)
+    ∧ describe s' = describe s := by
+  rw [fromDict_toDict_constructed K hIdem fresh s h] at hr
+  cases hr
+  exact ⟨fun _ => rfl, rfl⟩
+
+/-- the JSON round trip for every column the constructor built (stored type / element type possibly the int 0) -/
+theorem fromJson_toJson_constructed (K : Caster V)
+    (hIdem : ∀ m v w, K.parse m v = some w → K.truthy w = true → K.parse m w = some w)
+    (fresh f : String) (r : Raw V) (c : Col V) (hw : WellTyped r) (hi : init K f r = .ok c)
+    (hn : JsonNative K c) (hd : DefaultSurvivesJson K c) :
+    jsonRoundTrip K fresh c = .ok c :=
+  jsonRoundTrip_eq' K fresh c (init_establishes K hIdem f r c hi) (init_writable K f r c hi hw) hn hd
 
 /-- **A column written to JSON and read back is the same column**, when JSON can carry its values:
 the statistics are JSON-native and the default's JSON rendering casts back to it. -/
@@ -96,6 +151,21 @@ theorem restored_describes_same (K : Caster V) (fresh : String) (s s' : Schema V
     (h : ∀ c ∈ s.columns, Constructed K c ∧ Persistable c)
     (hr : fromDict K fresh (toDict s) = .ok s') :
     describe s' = describe s := by
+  rw [fromDict_toDict_eq K fresh s h] at hr
+  cases hr
+  rfl
+
+/-- **Reading the same written form again gives the same schema again** (a dictionary can be loaded any
+number of times; the second load equals the first, and both equal the original). -/
+theorem fromDict_repeatable (K : Caster V) (fresh fresh' : String) (s : Schema V)
+    (h : ∀ c ∈ s.columns, Constructed K c ∧ Persistable c) :
+    fromDict K fresh' (toDict s) = fromDict K fresh (toDict s) := by
+  rw [fromDict_toDict_eq K fresh s h, fromDict_toDict_eq K fresh' s h]
+
+/-- **Persisting the restored schema writes the same dictionary** (to_dict ∘ from_dict ∘ to_dict = to_dict). -/
+theorem toDict_stable (K : Caster V) (fresh : String) (s s' : Schema V)
+    (h : ∀ c ∈ s.columns, Constructed K c ∧ Persistable c)
+    (hr : fromDict K fresh (toDict s) = .ok s') : toDict s' = toDict s := by
   rw [fromDict_toDict_eq K fresh s h] at hr
   cases hr
   rfl
@@ -131,6 +201,77 @@ theorem from_dict_restores_listed :
     ∧ ∀ k ∈ ["name", "aliases", "primary_key", "columns"],
         k ∈ Gen.Persist.schemaFields ∧ Gen.Persist.fromDictRestores.lookup k = some k := by decide
 
+/-! ## the statements of the loaders and of the constructor, as extracted -/
+
+/-- **Declared parameters win over parsed ones, 0 included.**  In the block of `__init__` that maps a type
+literal, an explicitly given length / precision / scale (any value: `x is None` guards, not `x or parsed`)
+and element type are kept whatever the type name says.  This is what lets `DECIMAL(12,0)`, `VARCHAR[0]`
+survive a reload: they are written as `'DECIMAL'` + `scale = 0`, `'VARCHAR'` + `length = 0`. -/
+theorem declared_parameters_kept (t : RawTy) (e : RawTy) (l p s : Nat) (r : Resolved)
+    (h : resolveType t (some e) (some l) (some p) (some s) = .ok r) :
+    r.elem = some e ∧ r.length = some l ∧ r.precision = some p ∧ r.scale = some s := by
+  unfold resolveType at h
+  have f1 := fill_some "element_type" rawTyFalsy
+  have f2 := fill_some "length" (fun n : Nat => n == 0)
+  have f3 := fill_some "precision" (fun n : Nat => n == 0)
+  have f4 := fill_some "scale" (fun n : Nat => n == 0)
+  split at h
+  · cases h; exact ⟨rfl, rfl, rfl, rfl⟩
+  · split at h
+    · cases h
+    · split at h
+      · cases h; exact ⟨rfl, rfl, rfl, rfl⟩
+      · cases h
+        refine ⟨?_, ?_, ?_, ?_⟩ <;> dsimp only
+        · exact f1 _ _ (Or.inl rfl)
+        · exact f2 _ _ (Or.inr (Or.inl rfl))
+        · exact f3 _ _ (Or.inr (Or.inr (Or.inl rfl)))
+        · exact f4 _ _ (Or.inr (Or.inr (Or.inr rfl)))
+
+/-- **A declared DECIMAL precision / scale is never replaced by the default, 0 included** (the guards of the two
+defaulting statements are `is None`). -/
+theorem decimal_defaults_only_fill_none (ty : Ty) (p s : Nat) :
+    decimalPrecision ty (some p) = some p ∧ decimalScale ty (some p) (some s) = some s :=
+  ⟨decimalPrecision_fixed (fun _ => rfl), decimalScale_fixed (fun _ => rfl)⟩
+
+/-- the extracted statements have the shape the round trips need: every fill is guarded by `is None` and takes
+the parsed field of the same meaning; the DECIMAL defaults are guarded by `is None`; an enum member is written
+as its value; both loaders go through `FlatColumn.from_dict`; `from_dict` maps the written value of
+`_MISSING_TYPE` back to the member for the type and for the element type, and hands a written `'ARRAY'` with a
+null element type over as the member -/
+theorem extracted_statements :
+    Gen.Persist.initFills = [("element_type", "isNone", "elem"), ("precision", "isNone", "precision"),
+                             ("scale", "isNone", "scale"), ("length", "isNone", "length")]
+    ∧ Gen.Persist.decimalFills = [("precision", "isNone"), ("scale", "isNone")]
+    ∧ Gen.Persist.enumWrittenAs = "value"
+    ∧ Gen.Persist.columnLoader = "from_dict" ∧ Gen.Persist.jsonLoader = "from_dict"
+    ∧ ([("eqValue", "type", "_MISSING_TYPE")], "type", "_MISSING_TYPE") ∈ Gen.Persist.fromDictRules
+    ∧ ([("eqValue", "element_type", "_MISSING_TYPE")], "element_type", "_MISSING_TYPE") ∈ Gen.Persist.fromDictRules
+    ∧ ([("eqValue", "type", "ARRAY"), ("present", "element_type", ""), ("isNone", "element_type", "")], "type", "ARRAY")
+        ∈ Gen.Persist.fromDictRules := by
+  decide
+
+/-- **`from_dict` does not touch a dictionary it has nothing to repair in**: a hand-written column dictionary whose
+type is a name other than `'0'`, with an element type other than `'0'`, and that is not a bare `'ARRAY'` with an
+explicit null element type, reaches the constructor unchanged (so the loaders add nothing to what
+`FlatColumn(**dic)` means for it). -/
+theorem from_dict_only_repairs (K : Caster V) (fresh : String) (d : Raw V)
+    (h1 : typeIs d missingName = false)
+    (h2 : ∀ t, d.element_type = some (some t) → tyEqValue t missingName = false)
+    (h3 : (typeIs d TypeName.litArray && elemIsNull d) = false) :
+    colFromDict K fresh d = init K fresh d := by
+  unfold colFromDict
+  rw [prepare_eq]
+  have he : restoreElem d.element_type = d.element_type := by
+    unfold restoreElem
+    split
+    · rename_i t heq; rw [h2 t heq]; simp [heq]
+    · rfl
+  simp only [h1, Bool.false_eq_true, if_false, he]
+  have hd : ({ d with element_type := d.element_type } : Raw V) = d := by cases d; rfl
+  rw [hd, h3]
+  rfl
+
 /-! ## the boundary: what the written forms do not carry (open findings), proved of the model -/
 
 /-- a concrete column over the driver's values -/
@@ -140,11 +281,14 @@ def col (name : String) (ty : String) : Col PyVal :=
     length := none, precision := none, scale := none, origin := [], highest_value := .none, lowest_value := .none,
     null_count := none }
 
-/-- C16-K03: an ARRAY column without an element type (declared with the member, or as `LIST`) is
-written as `'ARRAY'` and read back with the default element type VARCHAR. -/
-theorem array_without_element_type_changes :
-    colFromDict Py.caster "f" (colToDict (col "a" "ARRAY"))
-      = .ok { col "a" "ARRAY" with element_type := some (.member "VARCHAR".toList) } := by
+/-- C16-K03 (repaired, F09): an ARRAY column without an element type (declared with the member, or as
+`LIST`) is written as `'ARRAY'` with a null element type; `from_dict` hands the member to the constructor,
+so the column comes back without an element type.  Read by the constructor alone (`cls(**dic)`, as before the
+repair) the bare name defaults the element type to VARCHAR. -/
+theorem array_without_element_type_restored :
+    colFromDict Py.caster "f" (colToDict (col "a" "ARRAY")) = .ok (col "a" "ARRAY")
+    ∧ init Py.caster "f" (colToDict (col "a" "ARRAY"))
+        = .ok { col "a" "ARRAY" with element_type := some (.member "VARCHAR".toList) } := by
   decide
 
 /-- C16-K02: a statistic that JSON renders in another form (a date becomes its ISO text) comes back
@@ -164,9 +308,11 @@ theorem json_unserialisable_raises :
     ∧ jsonRoundTrip Py.caster "f" { col "a" "VARCHAR" with length := some (10 ^ 20) } = .error .type := by
   decide
 
-/-- C16-K04: a TIME default is written as `'HH:MM:SS'`, which the TIME cast does not read. -/
-theorem json_time_default_raises :
-    jsonRoundTrip Py.caster "f" { col "a" "TIME" with default := Py.tagged "time" "03:04:05" } = .error .value := by
+/-- C16-K04 (repaired, F10): a TIME default is written as `'HH:MM:SS'`, which the TIME cast reads since the
+repair; the column comes back equal. -/
+theorem json_time_default_survives :
+    jsonRoundTrip Py.caster "f" { col "a" "TIME" with default := Py.tagged "time" "03:04:05" }
+      = .ok { col "a" "TIME" with default := Py.tagged "time" "03:04:05" } := by
   decide
 
 /-- C16-F08 (repaired): an ARRAY column whose element type is the untyped member is written with the
@@ -190,6 +336,8 @@ def demo : Schema PyVal :=
       { col "d" "DECIMAL" with precision := some 28, scale := some 21, disposition := some "AGE", nullable := false },
       { col "l" "ARRAY" with element_type := some (.member "DATE".toList), aliases := some ["x", "y"] },
       { col "m" "ARRAY" with element_type := some (.member "_MISSING_TYPE".toList) },
+      col "n" "ARRAY",
+      { col "w" "TIME" with default := Py.tagged "time" "03:04:05.250000" },
       { col "k" "INTEGER" with default := .int 7, highest_value := .int 9, lowest_value := .int (-1), null_count := some 0,
                                description := some "key" },
       { col "v" "VARCHAR" with length := some 12, default := .str "" } ] }
@@ -204,6 +352,58 @@ example : fromDict Py.caster "fresh" (toDict demo) = .ok demo := fromDict_toDict
 
 example : fromDict Py.caster "fresh" (toDict demo) = .ok demo := by decide
 
+/-- the behavioural clauses are not vacuous on it: `validate` (C05's model, shared) accepts one record and rejects
+another with all three kinds of error, and the restored schema - by `restored_validates_same` - does the same;
+`describe` (C06's type codes, shared) reports every column -/
+example :
+    Validate.validate (vcols demo)
+        [("u", some "set"), ("d", some "Decimal"), ("l", some "list"), ("m", none), ("n", some "list"), ("w", some "time"),
+         ("k", some "bool"), ("v", some "str")] = .ok
+    ∧ Validate.validate (vcols demo)
+        [("u", none), ("d", none), ("l", some "tuple"), ("m", none), ("n", none), ("w", some "datetime"), ("k", some "float")]
+        = .invalid ["v"] ["d"] ["l", "w", "k"]
+    ∧ Validate.validate (vcols demo) [("zz", none)] = .excess ["zz"]
+    ∧ (describe demo).all Option.isSome = true
+    ∧ (describe demo).length = 8 := by
+  decide
+
+example (s' : Schema PyVal) (hr : fromDict Py.caster "fresh" (toDict demo) = .ok s') (rec : Validate.Record) :
+    Validate.validate (vcols s') rec = Validate.validate (vcols demo) rec ∧ describe s' = describe demo :=
+  ⟨restored_validates_same Py.caster "fresh" demo s' nonvacuity_demo hr rec,
+   restored_describes_same Py.caster "fresh" demo s' nonvacuity_demo hr⟩
+
+/-- the full-strength theorem applies to columns given by raw keyword arguments, among them one whose stored type is
+the int 0 and an ARRAY declared as `LIST` (no element type) -/
+def rawDemo : List (Raw PyVal) :=
+  [{ name := some "z", type := some (.text "variant".toList), identity := some "i1" },
+   { name := some "l", type := some (.text "LIST".toList), identity := some "i2", nullable := some false },
+   { name := some "e", type := some (.member "ARRAY".toList), element_type := some (some (.text "0".toList)), identity := some "i3" },
+   { name := some "p", type := some (.text "decimal(12, 0)".toList), default := some (.int 0), identity := some "i4",
+     disposition := some (some (.text "age")) },
+   { name := some "q", type := some .zero, identity := some "i5", aliases := some none }]
+
+example :
+    (rawDemo.map (init Py.caster "fresh")) =
+      [.ok { col "z" "x" with type := .zero, identity := "i1" },
+       .ok { col "l" "ARRAY" with identity := "i2", nullable := false },
+       .ok { col "e" "ARRAY" with element_type := some .zero, identity := "i3" },
+       .ok { col "p" "DECIMAL" with default := .int 0, precision := some 12, scale := some 0, identity := "i4",
+                                    disposition := some "AGE" },
+       .ok { col "q" "x" with type := .zero, identity := "i5", aliases := none }]
+    ∧ rawDemo.all wellTypedB = true := by
+  decide
+
+example (s : Schema PyVal) (hs : s.columns.map Except.ok = rawDemo.map (init Py.caster "fresh")) :
+    fromDict Py.caster "g" (toDict s) = .ok s := by
+  refine fromDict_toDict_constructed Py.caster Py.caster_idem "g" s ?_
+  intro c hc
+  have : (Except.ok c : Except Err (Col PyVal)) ∈ rawDemo.map (init Py.caster "fresh") := by
+    rw [← hs]; exact List.mem_map_of_mem hc
+  obtain ⟨r, hr, hi⟩ := List.mem_map.mp this
+  exact ⟨"fresh", r, wellTyped_of_B r (by
+    have hall : rawDemo.all wellTypedB = true := by decide
+    exact List.all_eq_true.mp hall r hr), hi⟩
+
 /-- the JSON theorem's hypotheses are met by a DATE column with a date default (written as ISO text, cast
 back by the DATE cast), JSON-native statistics and a disposition -/
 def dateCol : Col PyVal :=
@@ -213,6 +413,14 @@ def dateCol : Col PyVal :=
 example : jsonRoundTrip Py.caster "f" dateCol = .ok dateCol :=
   fromJson_toJson Py.caster "f" dateCol (constructed_of_B _ _ (by decide)) (persistable_of_B _ (by decide))
     ⟨by decide, by decide, by decide, by decide⟩ ⟨.str "2020-01-02", by decide, by decide⟩
+
+/-- ... and by a TIME column with a time default (with microseconds), since repair F10 -/
+def timeCol : Col PyVal :=
+  { col "w" "TIME" with default := Py.tagged "time" "23:59:59.999999", null_count := some 0 }
+
+example : jsonRoundTrip Py.caster "f" timeCol = .ok timeCol :=
+  fromJson_toJson Py.caster "f" timeCol (constructed_of_B _ _ (by decide)) (persistable_of_B _ (by decide))
+    ⟨by decide, by decide, by decide, by decide⟩ ⟨.str "23:59:59.999999", by decide, by decide⟩
 
 /-- The hypothesis `hIdem` is satisfiable: the caster the driver runs against the implementation meets it
 (proved in `Lemmas/PersistPy.lean`), so the theorems apply to every column that model constructs. -/
